@@ -138,9 +138,9 @@ def generate(rng, tier):
             elif f == "status":
                 rec.append(rng.choice([0, 1, 2, 3, 10, 17, 200, 999, None, "1", "10", "None", "17", 2.0, "2.0"]))   # (look-alikes of other types too)
             elif f == "level":
-                rec.append(rng.choice([7, 10, 17, 3.5, -2, None, 123456789]))
+                rec.append(rng.choice([7, 10, 17, 3.5, -2, None, 123456789, "7", "None", "3.5", 7.0]))
             elif f == "flag":
-                rec.append(rng.choice([True, False, None]))
+                rec.append(rng.choice([True, False, None, True, "True", "None", 1]))
             else:
                 rec.append(rng.choice(NAMES_S))
         recs.append(rec)
@@ -215,7 +215,9 @@ def generate(rng, tier):
         elif r < 0.962:
             ops.append({"op": "set_fmt_invalid", "fmt": rng.choice([
                 "nosuchfield", fields[0] + ":x", fields[0] + ":1-2-3", fields[0] + ":1:2", ";1", ";a:b", ";1:2:3",
-                "a;b;c;d", fields[0] + ",nosuchfield:3", fields[0] + "/nosuchmodifier"])})
+                "a;b;c;d", fields[0] + ",nosuchfield:3", fields[0] + "/nosuchmodifier",
+                # separators of another kind only: not a format (today), and certainly not "no columns"
+                ",", ",,", " , ", ",;", " , ;;", fields[0] + ",", "," + fields[0]])})
         elif r < 0.97:
             ops.append({"op": "fmt_obj_ctor"})
         else:
@@ -586,6 +588,14 @@ def execute(trace, rng):
                     rejected = True
                 except Exception as e:
                     raise Violation("fault", f"invalid-format-raised-{type(e).__name__}", f"fmt {op['fmt']!r}: {e!r}")
+                if not rejected and set(op["fmt"]) <= set(",; "):
+                    # accepted, and made of separators only: "changes nothing"
+                    after = sut("render(table) after a separators-only assignment", render, w, t, False)
+                    if after != before or str(t.fmt) != fmt_before:
+                        raise Violation("noop", "assignment-separators-changes-table",
+                                        f"fmt = {op['fmt']!r} was accepted and changed the table: "
+                                        + first_diff(after, before) + f"; fmt {fmt_before!r} -> {str(t.fmt)!r}")
+                    continue
                 if not rejected:
                     # the format is legal after all (e.g. a field of that name exists): a real change
                     w.stats["real_changes"] += 1
